@@ -1,0 +1,49 @@
+//go:build verif
+
+package tsp
+
+// Contracts for the verification machinery in /verif (comment-only file; no code).
+// The ghost token stream and the assumed writer contracts are described in
+// /verif/contracts/extern.spec.
+
+// index of the first token of row i: 3 header tokens, row r has r weights, a zero and a row end
+//@ spec rowStart(i int) int = (i <= 0 ? 3 : rowStart(i-1) + i + 1)
+
+//@ lemma rsGe(i int)
+//@   requires 0 <= i
+//@   ensures rowStart(i) >= 3 + 2*i
+//@   by induction i
+//@   pattern rowStart(i)
+
+// rows do not overlap: row r ends before row i starts
+//@ lemma rsMono(r int, i int)
+//@   requires 0 <= r && r < i
+//@   ensures rowStart(r) + r + 2 <= rowStart(i)
+//@   by induction i - r
+//@   pattern rowStart(r), rowStart(i)
+
+//@ func LIB
+//@   opt lemmas=rsGe,rsMono
+//@   ghost var failed bool = false
+//@   ghost var pending int = 0
+//@   ghost var ntok int = 0
+//@   ghost var kind seq = 0
+//@   ghost var val seq = 0
+//@   assert at callsite weights: 0 <= arg1 && arg1 < arg0 && arg0 < n
+//@   ensures failed ==> err != nil
+//@   ensures err == nil ==> ntok == rowStart(n) + 1 && kind[0] == 1 && kind[1] == 2 && val[1] == n && kind[2] == 3 && kind[rowStart(n)] == 7
+//@   ensures err == nil ==> forall i in 0..n: kind[rowStart(i)+i] == 5 && kind[rowStart(i)+i+1] == 6
+//@   ensures err == nil ==> forall i in 0..n: forall j in 0..i: kind[rowStart(i)+j] == 4 && val[rowStart(i)+j] == call(weights, i, j)
+//@   loop 1
+//@     invariant 0 <= i && (i <= n || (n < 0 && i == 0)) && !failed && ntok == rowStart(i)
+//@     invariant kind[0] == 1 && kind[1] == 2 && val[1] == n && kind[2] == 3
+//@     invariant forall r in 0..i: kind[rowStart(r)+r] == 5 && kind[rowStart(r)+r+1] == 6
+//@     invariant forall r in 0..i: forall c in 0..r: kind[rowStart(r)+c] == 4 && val[rowStart(r)+c] == call(weights, r, c)
+//@     decreases n - i
+//@   loop 2
+//@     invariant 0 <= j && j <= i && i < n && !failed && ntok == rowStart(i) + j
+//@     invariant kind[0] == 1 && kind[1] == 2 && val[1] == n && kind[2] == 3
+//@     invariant forall r in 0..i: kind[rowStart(r)+r] == 5 && kind[rowStart(r)+r+1] == 6
+//@     invariant forall r in 0..i: forall c in 0..r: kind[rowStart(r)+c] == 4 && val[rowStart(r)+c] == call(weights, r, c)
+//@     invariant forall c in 0..j: kind[rowStart(i)+c] == 4 && val[rowStart(i)+c] == call(weights, i, c)
+//@     decreases i - j
